@@ -29,6 +29,7 @@ import (
 	"fmt"
 	"io"
 	"os"
+	"reflect"
 	"runtime"
 	"runtime/debug"
 	"sync"
@@ -65,6 +66,7 @@ const (
 	cCtxDone
 	cAfterFunc
 	cPipeReadOrCancel
+	cSelect
 	cNever
 )
 
@@ -81,6 +83,7 @@ type Thread struct {
 	cside int
 	cctx  context.Context
 	cdone <-chan struct{} // ctx.Done(), taken by the thread that owns ctx
+	csel  []<-chan struct{}
 	// for the canceller policy
 	isCanceller bool
 	started     bool
@@ -177,6 +180,13 @@ func (s *Sched) enabled(t *Thread) bool {
 	case cPipeReadOrCancel:
 		p := t.cpipe
 		return len(p.buf) > 0 || p.wclosed || p.rclosed || p.deadline || chanClosed(t.cdone)
+	case cSelect:
+		for _, ch := range t.csel {
+			if chanClosed(ch) {
+				return true
+			}
+		}
+		return false
 	case cPipeWrite:
 		p := t.cpipe
 		return len(p.buf) < p.cap || p.rclosed || p.wclosed
@@ -464,6 +474,51 @@ func (s *Sched) blockChan(ch any) {
 	s.yield(me, "recv")
 	me.ckind = cNone
 	me.cchan = nil
+}
+
+// Select replaces a select statement all of whose cases are plain receives
+// from channels that are only ever closed (`case <-ch:`); it returns the index
+// of the case taken. SelectDefault is the same with a default clause (-1).
+func Select(chs ...<-chan struct{}) int {
+	s := active
+	if s != nil {
+		s.blockSelect(chs)
+	} else {
+		cases := make([]reflect.SelectCase, len(chs))
+		for i, ch := range chs {
+			cases[i] = reflect.SelectCase{Dir: reflect.SelectRecv, Chan: reflect.ValueOf(ch)}
+		}
+		i, _, _ := reflect.Select(cases)
+		return i
+	}
+	for i, ch := range chs {
+		if chanClosed(ch) {
+			<-ch // the real receive, for its happens-before edge
+			return i
+		}
+	}
+	panic("vsched: Select scheduled with no ready case")
+}
+
+func SelectDefault(chs ...<-chan struct{}) int {
+	Point("select-default")
+	for i, ch := range chs {
+		if chanClosed(ch) {
+			<-ch
+			return i
+		}
+	}
+	return -1
+}
+
+//go:norace
+func (s *Sched) blockSelect(chs []<-chan struct{}) {
+	me := s.me()
+	me.ckind = cSelect
+	me.csel = chs
+	s.yield(me, "select")
+	me.ckind = cNone
+	me.csel = nil
 }
 
 // Close replaces close(ch).
